@@ -8,12 +8,16 @@ package harness
 
 import (
 	"context"
+	"fmt"
+	"os"
 	"database/sql/driver"
 	"sync"
 	"sync/atomic"
 
 	sqlite3 "github.com/mattn/go-sqlite3"
 )
+
+var debugSQL = os.Getenv("VERIF_DBG") != ""
 
 // SQLEvent is one driver-level call.
 type SQLEvent struct {
@@ -36,12 +40,48 @@ type hookConnector struct {
 	drv  *sqlite3.SQLiteDriver
 	hook *atomic.Value // SQLHook
 	seq  *int64
+
+	mu    sync.Mutex
+	conns map[*hookConn]bool
+}
+
+// ForceClose closes every underlying SQLite connection, including one that a
+// crashed sync goroutine left inside an open transaction (SQLite rolls it back).
+// This is what process exit does to a real daemon.
+func (c *hookConnector) ForceClose() {
+	c.mu.Lock()
+	defer c.mu.Unlock()
+	for hc := range c.conns {
+		// statements prepared inside a leaked transaction are still open; SQLite
+		// keeps a connection with unfinalised statements alive (and locked)
+		hc.opMu.Lock()
+		if !hc.dead {
+			hc.mu.Lock()
+			for st := range hc.stmts {
+				st.SQLiteStmt.Close()
+			}
+			hc.stmts = nil
+			inTx := hc.inTx
+			hc.mu.Unlock()
+			var rbErr error
+			if inTx {
+				_, rbErr = hc.SQLiteConn.ExecContext(context.Background(), "ROLLBACK", nil)
+			}
+			cerr := hc.SQLiteConn.Close()
+			if debugSQL {
+				println("ForceClose conn inTx=", inTx, "rollbackErr=", fmt.Sprint(rbErr), "closeErr=", fmt.Sprint(cerr))
+			}
+			hc.dead = true
+		}
+		hc.opMu.Unlock()
+		delete(c.conns, hc)
+	}
 }
 
 // NewHookConnector opens sqlite connections to dsn and reports to the hook
 // stored in hv (an atomic.Value holding a SQLHook; may be replaced any time).
-func NewHookConnector(dsn string, hv *atomic.Value) driver.Connector {
-	return &hookConnector{dsn: dsn, drv: &sqlite3.SQLiteDriver{}, hook: hv, seq: new(int64)}
+func NewHookConnector(dsn string, hv *atomic.Value) *hookConnector {
+	return &hookConnector{dsn: dsn, drv: &sqlite3.SQLiteDriver{}, hook: hv, seq: new(int64), conns: map[*hookConn]bool{}}
 }
 
 func (c *hookConnector) Connect(ctx context.Context) (driver.Conn, error) {
@@ -49,7 +89,24 @@ func (c *hookConnector) Connect(ctx context.Context) (driver.Conn, error) {
 	if err != nil {
 		return nil, err
 	}
-	return &hookConn{SQLiteConn: conn.(*sqlite3.SQLiteConn), c: c}, nil
+	hc := &hookConn{SQLiteConn: conn.(*sqlite3.SQLiteConn), c: c}
+	c.mu.Lock()
+	c.conns[hc] = true
+	c.mu.Unlock()
+	return hc, nil
+}
+
+// Close is called by database/sql when it discards the connection.
+func (hc *hookConn) Close() error {
+	hc.c.mu.Lock()
+	delete(hc.c.conns, hc)
+	hc.c.mu.Unlock()
+	if !hc.enter() {
+		return nil
+	}
+	defer hc.opMu.Unlock()
+	hc.dead = true
+	return hc.SQLiteConn.Close()
 }
 
 func (c *hookConnector) Driver() driver.Driver { return c.drv }
@@ -68,9 +125,25 @@ func (c *hookConnector) fire(ev *SQLEvent) error {
 
 type hookConn struct {
 	*sqlite3.SQLiteConn
-	c    *hookConnector
-	mu   sync.Mutex
-	inTx bool
+	c     *hookConnector
+	mu    sync.Mutex
+	inTx  bool
+	stmts map[*hookStmt]bool
+	// opMu is held around every call into SQLite on this connection, so that
+	// ForceClose never frees a connection another goroutine is inside (database/sql
+	// rolls an abandoned transaction back on its own goroutine when the context
+	// is cancelled). dead: closed by ForceClose.
+	opMu sync.Mutex
+	dead bool
+}
+
+func (hc *hookConn) enter() bool {
+	hc.opMu.Lock()
+	if hc.dead {
+		hc.opMu.Unlock()
+		return false
+	}
+	return true
 }
 
 func (hc *hookConn) tx() bool { hc.mu.Lock(); defer hc.mu.Unlock(); return hc.inTx }
@@ -80,7 +153,11 @@ func (hc *hookConn) BeginTx(ctx context.Context, opts driver.TxOptions) (driver.
 	if err := hc.c.fire(ev); err != nil {
 		return nil, err
 	}
+	if !hc.enter() {
+		return nil, driver.ErrBadConn
+	}
 	tx, err := hc.SQLiteConn.BeginTx(ctx, opts)
+	hc.opMu.Unlock()
 	ev.After, ev.Err = true, err
 	hc.c.fire(ev)
 	if err != nil {
@@ -101,7 +178,11 @@ func (hc *hookConn) ExecContext(ctx context.Context, q string, args []driver.Nam
 	if err := hc.c.fire(ev); err != nil {
 		return nil, err
 	}
+	if !hc.enter() {
+		return nil, driver.ErrBadConn
+	}
 	res, err := hc.SQLiteConn.ExecContext(ctx, q, args)
+	hc.opMu.Unlock()
 	ev.After, ev.Err = true, err
 	hc.c.fire(ev)
 	return res, err
@@ -112,18 +193,33 @@ func (hc *hookConn) QueryContext(ctx context.Context, q string, args []driver.Na
 	if err := hc.c.fire(ev); err != nil {
 		return nil, err
 	}
+	if !hc.enter() {
+		return nil, driver.ErrBadConn
+	}
 	rows, err := hc.SQLiteConn.QueryContext(ctx, q, args)
+	hc.opMu.Unlock()
 	ev.After, ev.Err = true, err
 	hc.c.fire(ev)
 	return rows, err
 }
 
 func (hc *hookConn) PrepareContext(ctx context.Context, q string) (driver.Stmt, error) {
+	if !hc.enter() {
+		return nil, driver.ErrBadConn
+	}
 	st, err := hc.SQLiteConn.PrepareContext(ctx, q)
+	hc.opMu.Unlock()
 	if err != nil {
 		return nil, err
 	}
-	return &hookStmt{SQLiteStmt: st.(*sqlite3.SQLiteStmt), hc: hc, q: q}, nil
+	hs := &hookStmt{SQLiteStmt: st.(*sqlite3.SQLiteStmt), hc: hc, q: q}
+	hc.mu.Lock()
+	if hc.stmts == nil {
+		hc.stmts = map[*hookStmt]bool{}
+	}
+	hc.stmts[hs] = true
+	hc.mu.Unlock()
+	return hs, nil
 }
 
 func (hc *hookConn) Prepare(q string) (driver.Stmt, error) {
@@ -136,12 +232,34 @@ type hookStmt struct {
 	q  string
 }
 
+func (s *hookStmt) Close() error {
+	// take the connection first: ForceClose must see a statement either still
+	// registered (and finalise it) or already finalised, never in between —
+	// SQLite keeps a connection with an unfinalised statement open and locked
+	if !s.hc.enter() {
+		return nil
+	}
+	defer s.hc.opMu.Unlock()
+	s.hc.mu.Lock()
+	_, open := s.hc.stmts[s]
+	delete(s.hc.stmts, s)
+	s.hc.mu.Unlock()
+	if !open {
+		return nil
+	}
+	return s.SQLiteStmt.Close()
+}
+
 func (s *hookStmt) ExecContext(ctx context.Context, args []driver.NamedValue) (driver.Result, error) {
 	ev := &SQLEvent{Op: "stmt-exec", SQL: s.q, InTx: s.hc.tx()}
 	if err := s.hc.c.fire(ev); err != nil {
 		return nil, err
 	}
+	if !s.hc.enter() {
+		return nil, driver.ErrBadConn
+	}
 	res, err := s.SQLiteStmt.ExecContext(ctx, args)
+	s.hc.opMu.Unlock()
 	ev.After, ev.Err = true, err
 	s.hc.c.fire(ev)
 	return res, err
@@ -152,7 +270,11 @@ func (s *hookStmt) QueryContext(ctx context.Context, args []driver.NamedValue) (
 	if err := s.hc.c.fire(ev); err != nil {
 		return nil, err
 	}
+	if !s.hc.enter() {
+		return nil, driver.ErrBadConn
+	}
 	rows, err := s.SQLiteStmt.QueryContext(ctx, args)
+	s.hc.opMu.Unlock()
 	ev.After, ev.Err = true, err
 	s.hc.c.fire(ev)
 	return rows, err
@@ -170,11 +292,19 @@ func (t *hookTx) Commit() error {
 	if err := t.hc.c.fire(ev); err != nil {
 		// an injected commit failure must leave SQLite rolled back, as a real
 		// failed COMMIT that database/sql reports would
-		_ = t.Tx.Rollback()
+		if t.hc.enter() {
+			_ = t.Tx.Rollback()
+			t.hc.opMu.Unlock()
+		}
 		t.done()
 		return err
 	}
+	if !t.hc.enter() {
+		t.done()
+		return driver.ErrBadConn
+	}
 	err := t.Tx.Commit()
+	t.hc.opMu.Unlock()
 	t.done()
 	ev.After, ev.Err = true, err
 	t.hc.c.fire(ev)
@@ -184,7 +314,12 @@ func (t *hookTx) Commit() error {
 func (t *hookTx) Rollback() error {
 	ev := &SQLEvent{Op: "rollback", SQL: "ROLLBACK", InTx: true}
 	_ = t.hc.c.fire(ev)
+	if !t.hc.enter() {
+		t.done()
+		return nil
+	}
 	err := t.Tx.Rollback()
+	t.hc.opMu.Unlock()
 	t.done()
 	ev.After, ev.Err = true, err
 	t.hc.c.fire(ev)
